@@ -360,7 +360,7 @@ func c12EvalBools(src string) ([]bool, string) {
 }
 
 func c12SrcPair(x, y c12Val, cs core.Case) *core.Viol {
-	exprs := "[p<q, p<=q, p>q, p>=q, p==q, p!=q, q<p, q<=q, q>p, q>=p, q==p]"
+	exprs := "[p<q, p<=q, p>q, p>=q, p==q, p!=q, q<p, q<=p, q>p, q>=p, q==p]"
 	progs := map[string]string{
 		"plain": strings.NewReplacer("p", "("+x.src+")", "q", "("+y.src+")").Replace(exprs),
 		"param": "func(p,q){" + exprs + "}(" + x.src + "," + y.src + ")",
@@ -375,7 +375,7 @@ func c12SrcPair(x, y c12Val, cs core.Case) *core.Viol {
 			}
 			return &core.Viol{Class: cl, Detail: ctx + ": " + e + " in " + progs[ctx], Case: cs}
 		}
-		lt, le, gt, ge, eq, ne, qlt, _, qgt, qge, qeq := r[0], r[1], r[2], r[3], r[4], r[5], r[6], r[7], r[8], r[9], r[10]
+		lt, le, gt, ge, eq, ne, qlt, qle, qgt, qge, qeq := r[0], r[1], r[2], r[3], r[4], r[5], r[6], r[7], r[8], r[9], r[10]
 		bad := ""
 		switch {
 		case lt != qgt:
@@ -388,6 +388,8 @@ func c12SrcPair(x, y c12Val, cs core.Case) *core.Viol {
 			bad = "a>=b iff not a<b"
 		case le != qge:
 			bad = "a<=b iff b>=a"
+		case ge != qle:
+			bad = "a>=b iff b<=a"
 		case eq == ne:
 			bad = "!= is not =="
 		case eq != qeq:
